@@ -233,9 +233,139 @@ fn unit_string(r: &mut Rng, integer_only: bool) -> String {
     s
 }
 
+/// an integer numeral whose product with the unit needs more than 53 bits (the class the binary64
+/// evaluation got wrong, D34): 17-19 digit ns counts, seconds beyond 4.6e9, days beyond 1e5 …,
+/// at i64 / 2^63 / 2^64 / i128 edges, up to the Duration bound and beyond (saturation)
+fn wide_integer_item(r: &mut Rng, pos: usize) -> String {
+    let f = FACTORS[pos] as u128;
+    let dmax: u128 = 32768 * 3_155_760_000_000_000_000u128;
+    let two53: u128 = 1 << 53;
+    let q: u128 = match r.below(12) {
+        // just above the point where n*f leaves 53 bits, odd so that no power of two helps
+        0 | 1 => (two53 / f + 1 + r.below(1000) as u128) | 1,
+        // anywhere between 2^53 ns and the 10 000-year bound
+        2 | 3 | 4 => {
+            let lo = two53 / f + 1;
+            let hi = (LIMIT as u128) / f;
+            (lo + (((r.next() as u128) << 64 | r.next() as u128) % (hi - lo + 1))) | (r.below(2) as u128)
+        }
+        // anywhere up to the Duration bound
+        5 | 6 => (((r.next() as u128) << 64 | r.next() as u128) % (dmax / f + 1)) | 1,
+        // around the bound itself (saturation on the far side)
+        7 => dmax / f + r.below(5) as u128 - 2,
+        // i64 / u64 / 2^63 edges of the numeral itself
+        8 => *r.pick(&[i64::MAX as u128 - 1, i64::MAX as u128, 1u128 << 63, (1u128 << 63) + 1, u64::MAX as u128, (u64::MAX as u128) + 1, (1u128 << 64) + 1]),
+        // the audit's witnesses and their neighbours
+        9 => *r.pick(&[4_611_686_019u128, 9_007_199_254_740_993, 123_456_789_012_345_678, 3_155_760_000_000_000_001, 10_000_000_000_000_000_001, 315_576_000_000_000_000_001]) + r.below(3) as u128,
+        // i128 edge of the numeral (then the f64 path, saturated)
+        10 => *r.pick(&[i128::MAX as u128 - 1, i128::MAX as u128, (i128::MAX as u128) + 1, (i128::MAX as u128) + 2, u128::MAX]),
+        // 17-19 digits
+        _ => 10u128.pow(16 + r.below(3) as u32) + r.below(1_000_000_000) as u128 * 7 + 1,
+    };
+    // leading zeros now and then (an integer all the same)
+    let zeros = if r.chance(1, 8) { "00" } else { "" };
+    let sp: Vec<&str> = SPELLINGS.iter().filter(|(_, p)| *p == pos).map(|(s, _)| *s).collect();
+    format!("{zeros}{q} {}", r.pick(&sp))
+}
+
+fn wide_integer_string(r: &mut Rng) -> String {
+    let k = match r.below(4) {
+        0 | 1 => 1,
+        2 => 2,
+        _ => 1 + r.below(4) as usize,
+    };
+    let mut used = [false; 7];
+    let mut items: Vec<String> = vec![];
+    for i in 0..k {
+        let pos = r.below(7) as usize;
+        if used[pos] {
+            continue;
+        }
+        used[pos] = true;
+        // at least the first item is wide; the others are wide or ordinary integers
+        if i == 0 || r.chance(1, 2) {
+            items.push(wide_integer_item(r, pos));
+        } else {
+            let sp: Vec<&str> = SPELLINGS.iter().filter(|(_, p)| *p == pos).map(|(s, _)| *s).collect();
+            items.push(format!("{} {}", numeral(r, true), r.pick(&sp)));
+        }
+    }
+    let mut s = items.join(" ");
+    if r.chance(1, 2) {
+        s.insert(0, '-');
+    }
+    s
+}
+
+const BLANKS: [char; 10] = [' ', ' ', ' ', '\t', '\n', '\r', '\u{a0}', '\u{2003}', '\u{3000}', '\u{85}'];
+
+/// a text of the grammar padded with blanks: white space at either end, runs of spaces between
+/// items, between number and unit, around the sign (the parser trims; the value must be that of the
+/// unpadded text, or the text is rejected)
+fn padded_string(r: &mut Rng) -> String {
+    let base = match r.below(6) {
+        0 | 1 => render_total(total_c11(r)),
+        2 => unit_string(r, true),
+        3 => unit_string(r, false),
+        4 => wide_integer_string(r),
+        _ => offset_string(r),
+    };
+    let mut cs: Vec<char> = base.chars().collect();
+    let k = 1 + r.below(3);
+    for _ in 0..k {
+        match r.below(6) {
+            0 => {
+                let m = 1 + r.below(3);
+                for _ in 0..m {
+                    cs.insert(0, *r.pick(&BLANKS));
+                }
+            }
+            1 => {
+                let m = 1 + r.below(3);
+                for _ in 0..m {
+                    cs.push(*r.pick(&BLANKS));
+                }
+            }
+            2 | 3 => {
+                // double an existing space (between items, or between number and unit)
+                let spaces: Vec<usize> = cs.iter().enumerate().filter(|(_, c)| **c == ' ').map(|(i, _)| i).collect();
+                if !spaces.is_empty() {
+                    let i = *r.pick(&spaces);
+                    let m = 1 + r.below(2);
+                    for _ in 0..m {
+                        cs.insert(i, ' ');
+                    }
+                }
+            }
+            4 => {
+                // after the sign
+                if !cs.is_empty() && (cs[0] == '-' || cs[0] == '+') {
+                    cs.insert(1, ' ');
+                }
+            }
+            _ => {
+                cs.insert(0, ' ');
+                cs.push(' ');
+            }
+        }
+    }
+    cs.into_iter().collect()
+}
+
+/// any canonical duration (the round trip now holds on the whole range)
+fn total_any(r: &mut Rng) -> i128 {
+    crate::gen::total(r)
+}
+
 pub fn inputs_c11(r: &mut Rng, n: usize, _tier: &str, out: &mut dyn Write) {
     // every spelling once with an integer and once with a fractional value, first
     let mut head: Vec<String> = vec![];
+    // the witnesses of D34 (integer numerals read through f64)
+    for w in ["4611686019 s", "9007199254740993 ns", "123456789012345678 ns", "3155760000000000001 ns",
+              "-4611686019 s", "106752 days 1 ns", "2562048 h 1 ns", "10000000000000000001 ns",
+              "315576000000000000001 ns", " 5 h ", "5 h  3 min", "- 5 h", "5  h"] {
+        head.push(format!("dparse {}", str2hex(w)));
+    }
     for (sp, _) in SPELLINGS.iter() {
         head.push(format!("dparse {}", str2hex(&format!("7 {sp}"))));
         head.push(format!("dparse {}", str2hex(&format!("10.598 {sp}"))));
@@ -249,6 +379,28 @@ pub fn inputs_c11(r: &mut Rng, n: usize, _tier: &str, out: &mut dyn Write) {
     }
     for _ in head.len()..n {
         let t = total_c11(r);
+        match r.below(26) {
+            20 | 21 | 22 => {
+                writeln!(out, "dparse {}", str2hex(&wide_integer_string(r))).unwrap();
+                continue;
+            }
+            23 | 24 => {
+                writeln!(out, "dparse {}", str2hex(&padded_string(r))).unwrap();
+                continue;
+            }
+            25 => {
+                // round trip anywhere in the Duration range
+                let t = total_any(r);
+                let op = *r.pick(&["drt", "drt", "djsonrt"]);
+                if r.chance(1, 3) {
+                    writeln!(out, "dparse {}", str2hex(&render_total(t))).unwrap();
+                } else {
+                    writeln!(out, "{} {}", op, crate::gen::dstr(t)).unwrap();
+                }
+                continue;
+            }
+            _ => {}
+        }
         match r.below(20) {
             0 | 1 | 2 => writeln!(out, "decompose {}", dstr11(t)).unwrap(),
             3 => writeln!(out, "subdiv {} {}", dstr11(t), crate::gen::unit_name(r)).unwrap(),
@@ -280,7 +432,9 @@ const ODD_CHARS: [char; 40] = [
 const ASCII_POOL: &[u8] = b"0123456789 +-.:eEdhmsnuinfaNyor_,/";
 
 fn grammar_valid(r: &mut Rng) -> String {
-    match r.below(10) {
+    match r.below(12) {
+        10 => wide_integer_string(r),
+        11 => padded_string(r),
         0 | 1 | 2 => render_total(total_c11(r)),
         3 | 4 => unit_string(r, false),
         5 => unit_string(r, true),
@@ -402,12 +556,12 @@ pub fn inputs_c13d(r: &mut Rng, n: usize, _tier: &str, out: &mut dyn Write) {
             9 => {
                 // the external number parsers on the mutated numeral alone
                 let base_num = if r.chance(1, 4) {
-                    r.pick(&["nan", "NaN", "-nan", "inf", "-inf", "+inf", "Infinity", "infinity", "1e400", "-1e400", "1e-400", "4.9e-324", "2.4703282292062328e-324", "1.7976931348623157e308", "1.7976931348623159e308", "9007199254740993", "9007199254740992", "18014398509481985", "0.1", "-0", "-0.0", "+5", "5.", ".5", "5.e1", "9223372036854775807", "9223372036854775808", "-9223372036854775808", "-9223372036854775809", "0000000000000000000000012"]).to_string()
+                    r.pick(&["nan", "NaN", "-nan", "inf", "-inf", "+inf", "Infinity", "infinity", "1e400", "-1e400", "1e-400", "4.9e-324", "2.4703282292062328e-324", "1.7976931348623157e308", "1.7976931348623159e308", "9007199254740993", "9007199254740992", "18014398509481985", "0.1", "-0", "-0.0", "+5", "5.", ".5", "5.e1", "9223372036854775807", "9223372036854775808", "-9223372036854775808", "-9223372036854775809", "0000000000000000000000012", "170141183460469231731687303715884105727", "170141183460469231731687303715884105728", "-170141183460469231731687303715884105728", "-170141183460469231731687303715884105729", "+170141183460469231731687303715884105727", "340282366920938463463374607431768211455"]).to_string()
                 } else {
                     numeral(r, false)
                 };
                 let num = if r.chance(1, 3) { base_num } else { mutate(r, &base_num) };
-                let op = if r.chance(1, 2) { "lex_i64" } else { "lex_f64" };
+                let op = *r.pick(&["lex_i64", "lex_f64", "lex_f64", "lex_i128"]);
                 writeln!(out, "{} {}", op, str2hex(&num)).unwrap();
                 k += 1;
                 continue;
@@ -461,6 +615,10 @@ pub fn exec(op: &str, a: &[&str]) -> Option<String> {
             ))
         }
         "lex_i64" => Some(match lexical_core::parse::<i64>(hex2str(a[0]).as_bytes()) {
+            Ok(v) => format!("ok {}", v),
+            Err(_) => "err".to_string(),
+        }),
+        "lex_i128" => Some(match lexical_core::parse::<i128>(hex2str(a[0]).as_bytes()) {
             Ok(v) => format!("ok {}", v),
             Err(_) => "err".to_string(),
         }),
